@@ -36,14 +36,28 @@ def stage_chunk(idx, items):
     rec.install()
     try:
         for stage, excname, method, objid, cons_ids, kind in items:
-            exc = scenario.EXC[excname]
+            exc = RecursionError if excname == 'RecursionError' else scenario.EXC[excname]
             w, prob = scenario.build(kind, objid, cons_ids)
             hook0, rl0 = warnings.showwarning, sys.getrecursionlimit()
 
             def boom(*a, **k):
                 raise exc('injected in ' + stage)
             saved = None
-            if stage == 'compile_hessian':
+            if stage.startswith('compile_expression@') or stage.startswith('compile_jacobian@'):
+                # the k-th compilation inside the cache builder fails: a partly built cache must not be left behind
+                import optyx.core.compiler as cc
+                name, k = stage.split('@')
+                mod = cc if name == 'compile_expression' else ad
+                orig = getattr(mod, name)
+                count = {'n': 0}
+
+                def boom(*a, _o=orig, **kw):
+                    count['n'] += 1
+                    if count['n'] == int(k):
+                        raise exc('injected in %s' % stage)
+                    return _o(*a, **kw)
+                saved = (mod, name, orig)
+            elif stage == 'compile_hessian':
                 saved = (ad, 'compile_hessian', ad.compile_hessian)
             elif stage == 'build_solver_cache':
                 saved = (ss, '_build_solver_cache', ss._build_solver_cache)
@@ -115,13 +129,18 @@ def run(report, tier):
     validate_traces(report, batch, 'C20 fault schedules', keep=('hook_restored', 'reclimit_restored'))
     items = [(stage, exc, m, o, c, kind)
              for stage, m, o, c in (('compile_hessian', 'trust-constr', 3, [11]), ('build_solver_cache', 'SLSQP', 3, [11]),
+                                    ('compile_expression@1', 'SLSQP', 3, [11]), ('compile_expression@2', 'SLSQP', 3, [11, 12]),
+                                    ('compile_expression@3', 'trust-constr', 4, [11, 12]), ('compile_jacobian@1', 'SLSQP', 3, [11]),
+                                    ('compile_jacobian@2', 'SLSQP', 3, [11, 12]), ('compile_jacobian@3', 'SLSQP', 4, [12, 11]),
                                     ('build_solver_cache', 'auto', 4, []), ('lp_extract', 'auto', 1, [11]), ('lp_extract', 'linprog', 2, []))
-             for exc in ('ValueError', 'MemoryError', 'KeyboardInterrupt') for kind in ('scalar', 'vector')]
+             for exc in ('ValueError', 'MemoryError', 'KeyboardInterrupt', 'RecursionError') for kind in ('scalar', 'vector')]
     batch = []
     for part in histrun.parallel(stage_chunk, items, chunk=4):
         batch += part.pop('batch')
         report.merge(part)
     validate_traces(report, batch, 'C20 stage faults', keep=('hook_restored', 'reclimit_restored'))
+    from .. import suitetrace
+    suitetrace.validate(report, keep=('hook_restored', 'reclimit_restored'))
     return report.finish(
         rule='TLC enumerates every complete solve behaviour of MC_Sched containing a fault (route x method x exception class in {ValueError, '
              'FloatingPointError, MemoryError, KeyboardInterrupt} x first entry / SLSQP retry in progress); each is replayed with the fault '
